@@ -539,7 +539,10 @@ row('CODE.LIST', ['C08'], fired='(S0.code.len() >= 2)', pushes=[('code', None)],
     clauses=[('fired.value.code.0', 'S0.code.len() >= 2 ==> top(S1.code, 0) is List && top(S1.code, 0)->items@ =~= seq![top(S0.code, 1), top(S0.code, 0)]')])
 row('CODE.NTH', ['C08'], takes=[('int', 1)], guard='S0.code.len() >= 1', pushes=[('code', None)])
 row('CODE.NULL', ['C08'], fired='(S0.code.len() >= 1)', pushes=[('bool', 'top(S0.code, 0) is List && top(S0.code, 0)->items@.len() == 0')])
-row('CODE.POSITION', ['C08'], fired='(S0.code.len() >= 2)', pushes=[('int', None)])
+# POSITION: index (depth first, as EXTRACT counts) of the first point of the top item that equals the second item; -1 exactly when there is none
+FP = 'crate::push::item::first_pos'
+row('CODE.POSITION', ['C08'], fired='(S0.code.len() >= 2)',
+    pushes=[('int', 'match %s(top(S0.code, 0), top(S0.code, 1)) { Some(p) => p as i32, None => -1i32 }' % FP)])
 row('CODE.PRINT', ['C11'], fired='(S0.code.len() >= 1)', pushes=[('name', None)])
 row('CODE.SUBST', ['C08'], takes=[('code', 3)], pushes=[('code', None)])
 
@@ -609,3 +612,10 @@ row('INTVECTOR.RAND', ['C13'], takes=[('int', 3)], touches=['intvec'], clauses=[
     ('{C13,C10}unfired.intvec', '!(S0.int.len() >= 3) ==> S1.intvec == S0.intvec')])
 row('FLOATVECTOR.RAND', ['C13'], takes=[('int', 1), ('float', 2)], touches=['floatvec'], clauses=[kept('floatvec', 0, 1),
     ('{C13,C10}unfired.floatvec', '!(S0.int.len() >= 1 && S0.float.len() >= 2) ==> S1.floatvec == S0.floatvec')])
+FN_OVERLAYS['code::code_position'] = dict(proofs={'body_start': '''        proof {
+            if push_state.code_stack@.len() >= 2 {
+                crate::push::item::lemma_first_pos_is_a_match(top(push_state.code_stack@, 0), top(push_state.code_stack@, 1));
+                assert(crate::push::item::points(push_state.code_stack@[push_state.code_stack@.len() - 1]) < 0x7fff_ffff);
+            }
+        }
+'''})
